@@ -189,8 +189,18 @@ func gnGenConfig(c *Ctx) *genesis.GenesisConfig {
 	if c.R.Intn(3) == 0 {
 		add(types.TokenContract, map[types.ZenonTokenStandard]*big.Int{})
 	}
-	if c.R.Intn(3) == 0 {
-		add(types.StakeContract, map[types.ZenonTokenStandard]*big.Int{zts[c.R.Intn(len(zts))]: gnRandAmount(c)})
+	// balances on the embedded contracts whose holdings no section constrains - the spork contract among them, whether or
+	// not the configuration has a spork section (its block is then built from the section, or as a plain balance block)
+	for i, ca := range []types.Address{types.StakeContract, types.SentinelContract, types.AcceleratorContract, types.HtlcContract,
+		types.BridgeContract, types.LiquidityContract, types.SporkContract} {
+		if c.R.Intn(3) == 0 {
+			add(ca, map[types.ZenonTokenStandard]*big.Int{zts[c.R.Intn(len(zts))]: gnRandAmount(c)})
+			name := []string{"stake", "sentinel", "accelerator", "htlc", "bridge", "liquidity", "spork"}[i]
+			if ca == types.SporkContract && cfg.SporkConfig != nil {
+				name += "+spork-section"
+			}
+			c.Hit("genesis-balance-on:" + name)
+		}
 	}
 	for _, u := range users {
 		bl := map[types.ZenonTokenStandard]*big.Int{}
